@@ -98,6 +98,25 @@ def fast_rate_scenarios(prefix, rng, extra_cfg):
     return out
 
 
+def nondividing_scenarios(prefix, extra_cfg):
+    """averages that do not divide the period (3/s, 7/s, 7/min, 45/20s): timePerToken is not a whole tick, so the model's
+    prediction is only approximate (approx: no drift, no potential); the observational clauses stay: a drained source that stays
+    idle for exactly burst x (period/average) regains its burst, a retry after the advertised wait is admitted"""
+    out = []
+    fam = [[(10, 3, 5)], [(10, 7, 9)], [(600, 7, 3)], [(200, 45, 20)], [(10, 3, 4), (600, 70, 90)]]
+    for i, rates in enumerate(fam):
+        for level in ("http", "set"):
+            b = min(r[2] for r in rates)
+            steps = [{"op": "req", "src": "s1", "n": b}, {"op": "idlex", "src": "s1"},
+                     {"op": "req", "src": "s1", "n": 1}, {"op": "retry", "src": "s1"}, {"op": "idlex", "src": "s1"},
+                     {"op": "req", "src": "s1", "n": b}, {"op": "retry", "src": "s1"}, {"op": "idlex", "src": "s1"}]
+            cfg = {"tick_ms": 100, "rates": [{"p": p, "a": a, "b": bb} for p, a, bb in rates], "cap": 65536, "level": level,
+                   "extract": "custom", "qualified": False, "approx": True}
+            cfg.update(extra_cfg)
+            out.append({"id": "%s-nondiv-%d-%s" % (prefix, i, level), "cfg": cfg, "steps": steps})
+    return out
+
+
 def ttl_ticks(rates, tps):
     return ((max(r["p"] for r in rates) // tps) * 10 + 1) * tps
 
